@@ -1,36 +1,38 @@
 package c20
 
 import (
-	"strconv"
+	"fmt"
+	"sort"
 	"testing"
+	"time"
 )
 
-func BenchmarkCase(b *testing.B) {
+func TestTiming(t *testing.T) {
 	c := check{}
-	for i := 0; i < b.N; i++ {
-		c.Run(1, "quick", 100+i%200, false)
+	n := c.Cases("quick")
+	type ct struct {
+		i int
+		d time.Duration
 	}
-}
-
-func TestCount(t *testing.T) {
-	for _, tier := range []string{"quick", "thorough"} {
-		n := universe(tier)
-		ok, big, neg, dig := 0, 0, 0, 0
-		for i := 0; i < n; i++ {
-			s := universeString(tier, i)
-			if hasDigit(s) {
-				dig++
-			}
-			if v, err := strconv.ParseInt(s, 0, 64); err == nil {
-				ok++
-				if v > 300 && v <= 65536 {
-					big++
-				}
-				if v < 0 {
-					neg++
-				}
+	var l []ct
+	var total time.Duration
+	for i := 0; i < n; i++ {
+		t0 := time.Now()
+		c.Run(1, "quick", i, false)
+		d := time.Since(t0)
+		total += d
+		l = append(l, ct{i, d})
+	}
+	sort.Slice(l, func(a, b int) bool { return l[a].d > l[b].d })
+	fmt.Println("total", total, "cases", n)
+	for _, x := range l[:25] {
+		var strs []string
+		if x.i < chunkCases("quick") {
+			for j := x.i; j < universe("quick"); j += chunkCases("quick") {
+				strs = append(strs, universeString("quick", j))
 			}
 		}
-		t.Logf("%s: universe %d table %d parse-ok %d big(300..65536] %d negative %d with-digit %d", tier, n, len(smallTable), ok, big, neg, dig)
+		fmt.Println(x.i, x.d, strs)
 	}
+	fmt.Println("median", l[len(l)/2].d)
 }
